@@ -32,6 +32,7 @@ def main():
     tier = "quick"
     suite = True
     src = "/tmp/seed-%s-out" % pid
+    name = None
     i = 0
     while i < len(args):
         if args[i] == "--checks":
@@ -45,6 +46,9 @@ def main():
             i += 1
         elif args[i] == "--src":
             src = args[i + 1]
+            i += 2
+        elif args[i] == "--name":
+            name = args[i + 1]
             i += 2
         else:
             i += 1
@@ -121,7 +125,7 @@ def main():
             meta["needs_to_manifest"] = f.read()[:3000]
     print(json.dumps({k: v for k, v in meta.items() if k not in ("needs_to_manifest", "demo_changed_output_tail")}, indent=1))
     if valid:
-        d = os.path.join(HERE, "seeded", "%s-%s" % (pid, n))
+        d = os.path.join(HERE, "seeded", name or "%s-%s" % (pid, n))
         os.makedirs(d, exist_ok=True)
         shutil.copy(patch, os.path.join(d, "patch.diff"))
         shutil.copy(demo, os.path.join(d, "demo.py"))
